@@ -291,6 +291,7 @@ func (p *Path) declare(name, sort string) {
 func (x *Exec) newHeap(p *Path) string {
 	h := x.fresh("H")
 	p.declare(h, "Heap")
+	p.assume("(gh " + h + ")") // a heap of the execution: the facts about reachable heaps apply to it
 	return h
 }
 
